@@ -170,6 +170,7 @@ pub struct StreamState {
     pub obj: Option<usize>,
     pub pipe_op: Option<u32>,
     pub ended_seen: bool,
+    pub cancelled_items: u32,
 }
 
 pub struct OutState {
@@ -452,6 +453,7 @@ impl World {
                     obj: None,
                     pipe_op: None,
                     ended_seen: false,
+                    cancelled_items: 0,
                 })
                 .collect(),
             outs: (0..prog.n_outs).map(|_| OutState { stream: None, taken: false, src: None, outputs: vec![], ended: false, dropped_at: None, waiting: None, depth: 5 }).collect(),
@@ -497,6 +499,7 @@ impl Drop for Val {
         if let Some(occ) = self.occupant {
             let o = self.o;
             violation("C05", "value_destroyed_while_occupied", &[occ], format!("value of object {} destroyed while operation {} was inside", o, occ));
+            violation("C14", "value_freed_while_borrowed", &[occ], format!("value of object {} freed while operation {} still holds &mut T to it", o, occ));
         }
     }
 }
